@@ -15,7 +15,7 @@ import os
 import socket
 import time
 
-TRANSLATORS = ["suites"]
+TRANSLATORS = ["suites", "kexchains"]
 
 MANIFEST = {
     "text": "Proof: for every suite any get*Suites selector can return (table regenerated from constants.py on each run) and every "
@@ -410,6 +410,107 @@ def impl_obs(s, v, st=None, kexinfo=None):
 
 
 # ----------------------------------------------------------------------------------------------
+# the key-exchange if-chains of tlsconnection.py, read from the AST (translate/gen_kexchains.py)
+# ----------------------------------------------------------------------------------------------
+
+KEX_FAMILY = {"RSAKeyExchange": "rsa", "DHE_RSAKeyExchange": "ffdhe", "ADHKeyExchange": "ffdhe",
+              "ECDHE_RSAKeyExchange": "ecdhe", "AECDHKeyExchange": "ecdhe", "SRPKeyExchange": "srp"}
+_CHAINS = {}
+
+
+def chains():
+    """(extracted data, {list name: members}) for the tree under check"""
+    from ..core import REPO
+    if REPO not in _CHAINS:
+        from translate import gen_kexchains
+        from tlslite.constants import CipherSuite as C
+        lists = {a: list(v) for a, v in vars(C).items() if isinstance(v, list) and all(isinstance(x, int) for x in v)}
+        _CHAINS[REPO] = (gen_kexchains.extract(REPO), lists)
+    return _CHAINS[REPO]
+
+
+def b01(x):
+    return "None" if x is None else ("1" if x else "0")
+
+
+def chain_eval(s):
+    """what the chains, as written in the source, do with suite s:
+    client: (class|None, expectsCertificate, expectsSKE, checksChain); server: (helper, class, sendsCert)|'AssertionError'|'unknown', recordsChain"""
+    from translate import gen_kexchains as g
+    data, lists = chains()
+    st, leaf = g.eval_tree(data["clientKexChain"], s, lists)
+    client = (leaf if st == "ok" else None, g.eval_cond(data["clientExpectsCertificateCond"], s, lists),
+              g.eval_cond(data["clientExpectsSKECond"], s, lists), g.eval_cond(data["clientChecksChainCond"], s, lists))
+    st, leaf = g.eval_tree(data["serverKexChain"], s, lists)
+    if st != "ok":
+        server = "unknown"
+    elif leaf is None:
+        server = "AssertionError"
+    else:
+        short = g.SERVER_PATHS.get(leaf[0])
+        server = (leaf[0], leaf[1], g.eval_cond(data["serverPathSendsCert"].get(short, ("unknown", "")), s, lists))
+    return client, server, g.eval_cond(data["serverRecordsChainCond"], s, lists)
+
+
+def chain_kexinfo(role, s, v):
+    """kex / certified / ske part of the implementation's observables, from the source's chains"""
+    if v >= (3, 4):
+        return dict(kex="tls13", certified=True, ske=False)
+    client, server, recorded = chain_eval(s)
+    if role == "client":
+        cls, cert, ske, chk = client
+        if cls is None or cert is None or ske is None or chk != cert:
+            return None
+        return dict(kex=KEX_FAMILY.get(cls, "?" + str(cls)), certified=cert, ske=ske)
+    if not isinstance(server, tuple) or server[2] is None or recorded != server[2]:
+        return None
+    fam = KEX_FAMILY.get(server[1], "?" + str(server[1]))
+    return dict(kex=fam, certified=server[2], ske=fam != "rsa")
+
+
+def chain_part(ctx, neg, B):
+    """generated chains: Lean evaluation vs an independent Python evaluation of the same AST extraction
+    (tie), and the chains against what each negotiable suite's name denotes (oracle, per suite)"""
+    from tlslite.constants import CipherSuite as C
+    names = dict(C.ietfNames)
+    data, lists = chains()
+    B.add("chainproblems", "-", "kex-chain-translator", {"problems": data["problems"]})
+    for s in all_ids() + [0, 3, 0x1306, 0xffff]:
+        client, server, recorded = chain_eval(s)
+        B.add("ckex %d" % s, "%s %s %s %s" % (client[0], b01(client[1]), b01(client[2]), b01(client[3])),
+              "generated-client-kex-chain", {"suite": s})
+        if isinstance(server, tuple):
+            exp = "%s %s %s %s" % (server[0], server[1], b01(server[2]), b01(recorded))
+        else:
+            exp = "%s %s" % (server, b01(recorded))
+        B.add("skex %d" % s, exp, "generated-server-kex-chain", {"suite": s})
+        ctx.case(key=("chain", s), sample=None)
+    B.flush()
+    bad = {"client": [], "server": []}
+    suites = sorted(set(x for (role, v), ss in neg.items() if v <= (3, 3) for x in ss))
+    for s in suites:
+        sem = parse_iana(names.get(s, ""))
+        want = spec_obs(sem, (3, 3)) if sem else None
+        if want is None:
+            continue
+        for role in ROLES:
+            got = chain_kexinfo(role, s, (3, 3))
+            ctx.case(key=("chain-oracle", role, s), sample={"suite": s, "name": names[s], "role": role, "chain": got}
+                     if s in (0x0034, 0xc01e) else None)
+            exp = {k: want[k] for k in ("kex", "certified", "ske")}
+            if got != exp:
+                bad[role].append((s, got, exp))
+    for role in ROLES:
+        if bad[role]:
+            s, got, exp = bad[role][0]
+            ctx.violation("c20:kex-chain:" + role,
+                          "(%d suites, first:) the %s's key-exchange if-chain in tlsconnection.py gives %s for negotiable suite "
+                          "0x%04x %s; its registered name denotes %s" % (len(bad[role]), role, got, s, names[s], exp),
+                          {"stage": "kex-chain", "parameter": "kex-chain", "role": role, "suite": s, "name": names[s],
+                           "chain": got, "denoted_by_name": exp, "all_suites": [x[0] for x in bad[role]]})
+
+
+# ----------------------------------------------------------------------------------------------
 # run
 # ----------------------------------------------------------------------------------------------
 
@@ -580,6 +681,7 @@ def static_part(ctx):
             B.add("neg %s %d %d" % (role, v[0], v[1]), nl(neg[(role, v)]), "negotiable-set",
                   {"role": role, "version": list(v)})
     B.flush()
+    chain_part(ctx, neg, B)
     # two specifications agree on every name (and on damaged names)
     probe_names = sorted(set(names.values()))
     extra = []
@@ -608,7 +710,7 @@ def static_part(ctx):
         name = names.get(s)
         sem = parse_iana(name) if name else None
         want = spec_obs(sem, v)
-        got = impl_obs(s, v, statics[s])
+        got = impl_obs(s, v, statics[s], chain_kexinfo(role, s, v))
         ctx.case(key=("obs", s, v, role), sample={"suite": s, "name": name, "version": list(v), "role": role,
                                                   "implementation": got, "denoted": want} if i % 97 == 0 else None)
         ctx.count("negotiable:%s:%d.%d" % (role, v[0], v[1]))
@@ -628,8 +730,8 @@ def static_part(ctx):
                    obs_render(want), name)
             continue
         for f in OBS_FIELDS:
-            if got[f] == "?":
-                continue
+            if got[f] == "?" or f in ("kex", "certified", "ske"):
+                continue        # the key-exchange part is judged once per role in chain_part
             if got[f] != want[f]:
                 report(ctx, s, v, role, f, got[f], want[f], name)
         # correspondence: model observables vs implementation's, Lean spec vs Python spec
@@ -1558,6 +1660,19 @@ def replay(ctx, rep):
         status, obs = live_one(ctx, s, v, name, parse_iana(name))
         print("live handshake 0x%04x %s in %d.%d: %s" % (s, name, v[0], v[1], status))
         return status != "ok"
+    if inp.get("stage") == "kex-chain":
+        role = inp["role"]
+        name = C.ietfNames.get(s)
+        sem = parse_iana(name) if name else None
+        want = spec_obs(sem, (3, 3)) if sem else None
+        got = chain_kexinfo(role, s, (3, 3))
+        exp = {k: want[k] for k in ("kex", "certified", "ske")} if want else None
+        print("%s chain for 0x%04x %s: %s; name denotes %s" % (role, s, name, got, exp))
+        vs = [v for v in VERSIONS[:4] if sem and defined_in(sem, v)]
+        if vs and want:
+            status, obs = live_one(ctx, s, vs[-1], name, sem)
+            print("live handshake in %d.%d: %s" % (vs[-1][0], vs[-1][1], status))
+        return got != exp
     if inp.get("stage") == "faulty-server":
         span = (tuple(inp["span"][0]), tuple(inp["span"][1]))
         v = tuple(inp["version"])
